@@ -170,6 +170,37 @@ fn explore<const N: usize>(w: &mut impl std::io::Write) -> (usize, usize) {
     (seen.len(), trans)
 }
 
+/// every index shape at a moderate size: polls with ReadBufs around the unread length, writes around the free space
+fn grid<const N: usize>(w: &mut impl std::io::Write) -> usize {
+    let mut n = 0;
+    let mem: Vec<u8> = (0..N).map(|i| (i as u8).wrapping_mul(5).wrapping_add(0x30)).collect();
+    for wi in 0..=N {
+        for ri in 0..=wi {
+            if ri == wi && ri > 0 {
+                continue;
+            }
+            let len = wi - ri;
+            let free = N - wi;
+            let s = St { mem: mem.clone(), ri, wi, rd: mem[ri..wi].to_vec(), e: ri == wi };
+            let mut ops = vec![Op::PollFlush, Op::PollShutdown, Op::Shift];
+            for p in [0usize, 1, 3] {
+                for c in [0usize, 1, len.saturating_sub(1), len, len + 1, 9, 16] {
+                    ops.push(Op::PollRead(p, c));
+                }
+            }
+            for k in [0usize, 1, free.saturating_sub(1), free, free + 1] {
+                ops.push(Op::PollWrite((0..k).map(|i| 0x61 + (i as u8 % 26)).collect()));
+            }
+            for op in &ops {
+                let mut b = rebuild::<N>(&s);
+                apply(&mut b, &s, op, w);
+                n += 1;
+            }
+        }
+    }
+    n
+}
+
 fn block_on<F: Future>(f: F) -> F::Output {
     let wk = Waker::noop();
     let mut cx = Context::from_waker(&wk);
@@ -243,6 +274,10 @@ pub fn run(thorough: bool, seed: u64, w: &mut impl std::io::Write) {
         let r4 = explore::<4>(w);
         tot += r4.1;
         states += r4.0;
+    }
+    tot += grid::<8>(w) + grid::<16>(w) + grid::<33>(w);
+    if thorough {
+        tot += grid::<64>(w) + grid::<130>(w);
     }
     let mut rng = Rng(seed ^ 0xa7);
     let cases = if thorough { 20000 } else { 2000 };
